@@ -48,14 +48,16 @@ AddSupra == \E i \in cited :
     /\ items' = Append(items, [kind |-> "supra", case |-> i, ante |-> TRUE, pin |-> NoPin, unamb |-> TRUE, out |-> FALSE])
     /\ lastcase' = i /\ ok' = (ok /\ joined' = ResOfCase(i)) /\ UNCHANGED cited
 (* id.: pin classes relative to the first page of the antecedent *)
-AddId == \E pc \in {"none", "in", "before", "beyond"} :
+AddId == \E pc \in {"none", "in", "inrange", "innote", "before", "beyond"} :    \* inrange: "at 103-05", innote: "at 103, n. 3"
     LET i == lastcase
         pg == IF i = 0 THEN 10 ELSE Cases[i].pg
-        pin == CASE pc = "none" -> NoPin [] pc = "in" -> pg + 3 [] pc = "before" -> pg - 1 [] OTHER -> pg + M + 1
-        good == i # 0 /\ pc \in {"none", "in"}
+        pin == CASE pc = "none" -> NoPin [] pc \in {"in", "inrange", "innote"} -> pg + 3
+                 [] pc = "before" -> pg - 1 [] OTHER -> pg + M + 1
+        good == i # 0 /\ pc \in {"none", "in", "inrange", "innote"}
     IN
     /\ Step(Cite("id", "", NoGroup, {}, {}, NoName, pin))
-    /\ items' = Append(items, [kind |-> "id", case |-> i, ante |-> FALSE, pin |-> pin, unamb |-> good, out |-> ~good])
+    /\ items' = Append(items, [kind |-> "id", case |-> i, ante |-> (pc = "inrange"), pin |-> IF pc = "innote" THEN 0 - pin ELSE pin,
+                                unamb |-> good, out |-> ~good])      \* (ante / the sign of pin carry the written form of the pin cite)
     /\ lastcase' = IF good THEN i ELSE 0
     /\ ok' = (ok /\ (good => joined' = ResOfCase(i)) /\ (~good => joined' = NoRes))
     /\ UNCHANGED cited
